@@ -107,6 +107,7 @@ type env struct {
 	helpers       atomic.Int32   // racing readers running on their own goroutines (hooks called by them must not touch env)
 	cleanup       *cleanupRun    // the cache cleanup started by opCacheCleanup which is running now
 	lastCleanup   *cleanupRun
+	closes        int            // snapshots closed so far (second halves included)
 	closing       []*closingSnap // snapshots between the two halves of their Close (two_step_close_test.go)
 	noRace        bool           // no further racing readers (the history is finishing: every cleanup would add snapshots)
 	racedCleanups int
@@ -165,6 +166,11 @@ func (e *env) fsHook(op, path string, before bool) {
 					e.violation = fmt.Sprintf("table %d of family %s is deleted while open snapshot #%d (taken at op %d) still references it", num, fam, h.id, h.takenAtOp)
 				}
 			}
+			e.mapMu.Lock()
+			if n := e.mapped[fam+"/"+filepath.Base(path)]; n > 0 && e.violation == "" {
+				e.violation = fmt.Sprintf("table %d of family %s is deleted while the reader cache still holds %d mapping(s) of it (a dead file is evicted before it is deleted)", num, fam, n)
+			}
+			e.mapMu.Unlock()
 			if f, ok := e.fams[fam]; ok {
 				for _, p := range kv.VerifPendingOutputs(f) {
 					if p == num {
@@ -559,10 +565,14 @@ func (e *env) opCompact() {
 	var ran bool
 	var err error
 	e.jobFam = fam
+	closes := e.closes
 	e.runJob("compact", func() { ran, err = kv.VerifCompactSync(e.fams[fam], force) })
 	e.jobFam = ""
 	if err != nil {
 		e.fatalf("compaction failed: %v", err)
+	}
+	if ran && closes == e.closes {
+		e.checkDirectoryAfterPass(fam, "after the compaction job", false)
 	}
 	if ran {
 		e.classes["compaction-ran"]++
@@ -579,8 +589,12 @@ func (e *env) opCompact() {
 func (e *env) opDeleteObsolete() {
 	fam := e.pickFamily()
 	e.logf("deleteObsolete %s", fam)
+	closes := e.closes
 	e.runJob("deleteObsolete", func() { kv.VerifDeleteObsoleteFiles(e.fams[fam]) })
 	e.noteBetween(fam, false, true, false)
+	if closes == e.closes {
+		e.checkDirectoryAfterPass(fam, "after the obsolete-file pass", false)
+	}
 	for _, h := range e.held {
 		if h.fam == fam {
 			h.cleanups++
@@ -797,6 +811,7 @@ func (e *env) opCloseSnapshot(i int, why string) {
 		e.ntSnaps++
 	}
 	h.snap.Close()
+	e.closes++
 	e.held = append(e.held[:i], e.held[i+1:]...)
 }
 
@@ -1054,6 +1069,7 @@ func TestSnapshotStability(t *testing.T) {
 			e.opFinishWriter()
 		}
 		e.checkCurrent(0)
+		e.endOfHistory()
 		if e.pointOnly {
 			e.classes["history-point-readers-only"]++
 		}
